@@ -229,6 +229,114 @@ def run(ctx):
     rep.coverage["traces_validated_against_impl"] += len(kcases)
 
     rep.lap('kernels')
+
+    # ---------------- (c2) the three Widrow-Hoff kernels consume hand-made chunks -----------------
+    # every compiled kernel, not only the Rescorla-Wagner one: events without cues, events without outcomes,
+    # repeated ids, an empty-cue event directly after an ordinary one, more than 1024 ids in an event
+    wcases = []
+    for k in range(120 if thorough else 24):
+        fl = ["b2r", "r2b", "r2r"][k % 3]
+        big = (k % 12) in (9, 10, 11)
+        n_cue = rng.choice([1100, 1300]) if big else rng.randint(2, 6)
+        n_out = rng.choice([1100, 1200]) if big else rng.randint(1, 5)
+        cd, od = rng.randint(1, 4), rng.randint(1, 4)
+        if big:
+            cd, od = rng.randint(1, 2), rng.randint(1, 2)
+        files = []
+        for fi in range(rng.randint(1, 3)):
+            es = []
+            for ei in range(rng.randint(2, 6)):
+                kind = rng.choice(["plain", "plain", "no_cues", "no_outs", "repeat"])
+                if ei == 0 and fi == 0:
+                    kind = "plain"
+                ncs = 0 if kind == "no_cues" else rng.randint(1, 4)
+                nos = 0 if kind == "no_outs" else rng.randint(1, 3)
+                if big and ei == 1:
+                    ncs, nos = (rng.randint(1025, n_cue), rng.randint(1, 3)) if (k + fi) % 2 else \
+                               (rng.randint(1, 3), rng.randint(1025, n_out))
+                    cs = rng.sample(range(n_cue), ncs)
+                    os_ = rng.sample(range(n_out), nos)
+                else:
+                    cs = [rng.randrange(n_cue) for _ in range(ncs)]
+                    os_ = [rng.randrange(n_out) for _ in range(nos)]
+                    if kind != "repeat":
+                        cs, os_ = list(dict.fromkeys(cs)), list(dict.fromkeys(os_))
+                es.append([cs, os_])
+            files.append(es)
+        small = [Fraction(v, 2) for v in range(-4, 5)]
+        if big:      # sparse tables keep the exact model cheap: most rows are zero vectors
+            cv = [[rng.choice(small) if rng.random() < 0.01 or i < 4 else Fraction(0) for _ in range(cd)] for i in range(n_cue)]
+            ov = [[rng.choice(small) if rng.random() < 0.01 or i < 4 else Fraction(0) for _ in range(od)] for i in range(n_out)]
+        else:
+            cv = [[rng.choice(small) for _ in range(cd)] for _ in range(n_cue)]
+            ov = [[rng.choice(small) for _ in range(od)] for _ in range(n_out)]
+        eta = rng.choice([Fraction(1, 8), Fraction(1, 16), Fraction(1, 32)]) if not big else Fraction(1, 4096)
+        b1, b2, lam = rng.choice([Fraction(1, 8), Fraction(1, 4)]), rng.choice([Fraction(1, 16), Fraction(1, 32)]), \
+            rng.choice([Fraction(1), Fraction(3)])
+        if big:
+            b1, b2 = Fraction(1, 4096), Fraction(1, 8192)
+        shape = {"b2r": [od, n_cue], "r2b": [n_out, cd], "r2r": [od, cd]}[fl]
+        rows = list(range(shape[0])) if shape[0] <= 8 else sorted(rng.sample(range(shape[0]), 8))
+        cols = list(range(shape[1])) if shape[1] <= 8 else sorted(rng.sample(range(shape[1]), 8))
+        if big and fl == "b2r":
+            cols = sorted(set(cols[:4] + [c for f in files for e in f for c in e[0][:2]]))[:12]
+        if big and fl == "r2b":
+            rows = sorted(set(rows[:4] + [o for f in files for e in f for o in e[1][:2]]))[:12]
+        wcases.append({"fl": fl, "n_cue": n_cue, "n_out": n_out, "cd": cd, "od": od, "files": files, "cv": cv, "ov": ov,
+                       "eta": eta, "b1": b1, "b2": b2, "lam": lam, "shape": shape, "rows": rows, "cols": cols,
+                       "chunksize": rng.randint(1, 4), "n_jobs": rng.randint(1, 4)})
+    wjobs, wenc = [], []
+    for wc in wcases:
+        fb = [py_encode(es) for es in wc["files"]]
+        wjobs.append({"kind": "wh_kernel", "flavour": wc["fl"], "files": fb, "shape": wc["shape"],
+                      "cv": [[rwlib.nd(x) for x in r] for r in wc["cv"]], "ov": [[rwlib.nd(x) for x in r] for r in wc["ov"]],
+                      "eta": rwlib.nd(wc["eta"]), "b1": rwlib.nd(wc["b1"]), "b2": rwlib.nd(wc["b2"]), "lam": rwlib.nd(wc["lam"]),
+                      "chunksize": wc["chunksize"], "n_jobs": wc["n_jobs"]})
+        fl = wc["fl"]
+        n_cdims = 0 if fl == "b2r" else wc["cd"]
+        n_odims = 0 if fl == "r2b" else wc["od"]
+        enc = [{"b2r": 0, "r2b": 1, "r2r": 2}[fl]] + rwlib.nd(wc["eta"]) + rwlib.nd(wc["b1"]) + rwlib.nd(wc["b2"]) + \
+            rwlib.nd(wc["lam"]) + [wc["shape"][1], n_cdims, n_odims, wc["shape"][0]]
+        for tbl, use in ((wc["cv"], fl != "b2r"), (wc["ov"], fl != "r2b")):
+            cells = []
+            if use:
+                for i, row in enumerate(tbl):
+                    for kk, v in enumerate(row):
+                        if v != 0:
+                            cells += [i, kk] + rwlib.nd(v)
+            enc += [len(cells) // 4] + cells
+        enc += [len(fb)]
+        for f in fb:
+            enc += wr_list(f)
+        enc += [0] + wr_list(wc["rows"]) + wr_list(wc["cols"])
+        wenc.append((801, enc))
+    wres = sc.run_workers("binfmt_worker", [{"jobs": [j]} for j in wjobs], timeout=900)
+    wmo = run_models(wenc)
+    for wc, (status, res), mo in zip(wcases, wres, wmo):
+        desc = {kk: wc[kk] for kk in ("fl", "n_cue", "n_out", "cd", "od", "chunksize", "n_jobs")}
+        desc["ids_per_event"] = [[len(e[0]), len(e[1])] for f in wc["files"] for e in f]
+        rep.case(desc)
+        rep.hist("wh_kernel_flavour", wc["fl"])
+        rep.hist("wh_kernel_events_without_cues", sum(1 for f in wc["files"] for e in f if not e[0]))
+        if status != "ok" or res[0]["status"] != "ok" or mo[0] != 0:
+            rep.violation("Widrow-Hoff kernel call on well-formed chunks failed",
+                          {"correspondence": "X-binfmt/wh-kernel", "case": desc, "impl": trim(res), "model": mo[:5]})
+            break
+        mt = rwlib.dec_matrix(mo, wc["rows"], wc["cols"])
+        W = res[0]["value"]
+        it = {(o, c): rwlib.fr(W[o][c]) for o in wc["rows"] for c in wc["cols"]}
+        ne, nr, worst = rwlib.compare_tables(mt, it, wc["lam"])
+        rep.bump("cells_exact", ne)
+        rep.bump("cells_rounded", nr)
+        if worst:
+            rep.violation("a Widrow-Hoff kernel (%s) consumed a chunk differently from the model" % wc["fl"],
+                          {"correspondence": "X-binfmt/wh-kernel", "theorems": ["C06_kernel_reads_same"],
+                           "case": desc, "files": wc["files"] if wc["n_cue"] < 20 else "large",
+                           "tables": {"cv": [[str(x) for x in r] for r in wc["cv"]][:8], "ov": [[str(x) for x in r] for r in wc["ov"]][:8]},
+                           "mismatch": worst})
+            break
+    rep.coverage["traces_validated_against_impl"] += len(wcases)
+    rep.lap('wh_kernels')
     # ---------------- (d) bad header at every position ---------------------------
     goodc = py_encode([[[0, 1], [0]], [[1], [1]]])
     bads = {"magic": py_encode([[[0], [0]]], magic=MAGIC + 7), "version": py_encode([[[0], [0]]], version=215),
